@@ -13,7 +13,7 @@ def gens(tier):
 
 def check_c09(pid, tier, replay):
     g = gens(tier) + [("endpoint/StreamGen", "endpoint/StreamGen%s.cfg" % ("_deep" if tier == "thorough" else ""))] + endpoint.mix_gens(pid, tier)
-    endpoint.run(pid, tier, replay, ("C09_",), [("endpoint/Credit", "endpoint/Credit.cfg")], g, RULE +
+    endpoint.run(pid, tier, replay, ("C09_",), [("endpoint/Credit", "endpoint/Credit.cfg"), ("ind/FlowInd", "apalache")], g, RULE +
                  "; plus streams to Auto(n) receivers disposing in batches of b (accept_all / single accepts / auto-accept) for every n, b of StreamGen.tla" + endpoint.MIX_RULE)
 
 
